@@ -126,6 +126,15 @@ def _make_rng(spec, xo):
                 raise RuntimeError(f"explicit draws: code requested {shape}, case supplies {m.shape}")
             return m
         return _RecGen(numpy.random.PCG64(0), script=nxt), spec["den"]
+    if mode == "const":
+        # call k of uniform returns a matrix whose entries all equal vals[k % len(vals)] / den
+        state = {"k": 0}
+
+        def const(shape):
+            v = spec["vals"][state["k"] % len(spec["vals"])] / spec["den"]
+            state["k"] += 1
+            return numpy.full(shape, v, dtype=float)
+        return _RecGen(numpy.random.PCG64(0), script=const), spec["den"]
     if mode == "scripted":
         rs = random.Random(spec["seed"])
         den = spec["den"]
@@ -200,6 +209,11 @@ def _build_pgmat(case):
     return g, xo
 
 
+def _meta_json(obj):
+    """the thirteen marker-metadata arrays in the driver's canonical encoding (None -> null)"""
+    return {f: (None if getattr(obj, f) is None else canon.enc(numpy.asarray(getattr(obj, f)))) for f in VRNT_FIELDS}
+
+
 def _snapshot(g):
     s = {"mat": g.mat.copy(), "taxa": copy.deepcopy(g.taxa), "taxa_grp": copy.deepcopy(g.taxa_grp)}
     for f in VRNT_FIELDS:
@@ -226,7 +240,8 @@ class C01(Prop):
     N_THOROUGH = 6000
     RULE = ("all seven protocols through the public mate(): 1-8 parents x 1-24 markers, allele codes unique per "
             "(taxon, phase[, marker]) or arbitrary int8 incl. -128/127; xconfig with selfs, repeated parents and "
-            "repeated crosses, 0-4 crosses; scalar and per-cross array counts incl. zeros; nself 0-3; xoprob with "
+            "repeated crosses, parents addressed from the end (negative indices), 0-4 crosses; scalar and per-cross array "
+            "counts incl. zeros; one corpus case with 4100 gametes in one meiosis call; nself 0-3; xoprob with "
             "exact 0 / 0.5 / 1 entries; counters incl. the 10^7 name-width rollover; genuine PCG64 / MT19937 / "
             "RandomState streams and scripted draws (exact 0.0, ties r == xoprob, one step below); a 6 % stream of "
             "inputs the code must reject; the mat_* / dense_* utilities directly.  Non-trivial = at least one "
@@ -236,7 +251,7 @@ class C01(Prop):
                "numpy Generator / RandomState: `uniform(0,1,size)` returns multiples of 2^-53 in [0,1); the model takes the "
                "recorded draws as input (a recording subclass logs them)",
                "DensePhasedGenotypeMatrix constructor and group_taxa() (modelled as the stable (family, name) sort + unique runs)"]
-    ASSUMPTIONS = ["diploid input (two phases); selection indices in [0, ntaxa) (negative numpy indices are not modelled)",
+    ASSUMPTIONS = ["diploid input (two phases); selection indices in [-ntaxa, ntaxa) (numpy's index rule is modelled by wrapIdx)",
                    "progeny/family counters are non-negative",
                    "generation order of names is demanded only while progeny_counter + count <= 10^7 (7-digit zero fill); "
                    "beyond that the sorted arrangement is demanded (see order_preserved_counterexample)"]
@@ -308,6 +323,8 @@ class C01(Prop):
             else:
                 row = [rng.randrange(ntaxa) for _ in range(npar)]
             xc.append(row)
+        if rng.random() < 0.2:                                       # numpy index rule: -k names taxon ntaxa-k
+            xc = [[v - ntaxa if rng.random() < 0.5 else v for v in row] for row in xc]
 
         def cnt(hi):
             if rng.random() < 0.45:
@@ -339,7 +356,8 @@ class C01(Prop):
         c["expect_error"] = True
         if k == 0:                                      # selection index outside the matrix
             c["xconfig"] = [list(r) for r in c["xconfig"]]
-            c["xconfig"][rng.randrange(len(c["xconfig"]))][rng.randrange(len(c["xconfig"][0]))] = ntaxa + rng.randint(0, 2)
+            c["xconfig"][rng.randrange(len(c["xconfig"]))][rng.randrange(len(c["xconfig"][0]))] = \
+                rng.choice([ntaxa + rng.randint(0, 2), -ntaxa - 1 - rng.randint(0, 2)])
             c["nmating"] = 1
             c["nprogeny"] = rng.randint(1, 2)
         elif k == 1:                                    # count array of the wrong length
@@ -409,6 +427,15 @@ class C01(Prop):
         for i, k in enumerate(PROTOS):
             n = PROTOS[k][1]
             out.append(self._mk(k, g4, xo6, [list(range(n))], 1, 1, 0, 0, 0, sc(20 + i), meta="alleles"))
+        # more than 4096 gametes in one mat_meiosis call (1 marker, two families of 4096 + 4 progeny, distinct
+        # parents with distinct alleles): a block-wise / chunked rewrite of the draw or copy loop must keep the
+        # row index global.  Call k of uniform returns a constant matrix (0 = crossover, 1/2 = tie, none).
+        g1 = [[[-128], [-126], [-124], [-122]], [[-127], [-125], [-123], [-121]]]
+        out.append(self._mk("2w", g1, [half], [[0, 1], [2, 3]], [1, 1], [4096, 4], 0, 0, 0,
+                            {"mode": "const", "den": 64, "vals": [0, 32]}, meta="none"))
+        # negative indices (numpy counts from the end) and an index below -ntaxa that is never used
+        out.append(self._mk("3w", g4, xo6, [[-1, 0, -3], [2, -4, 1]], [1, 2], [2, 1], 1, 0, 0, sc(40)))
+        out.append(self._mk("4wdh", g4, xo6, [[-1, -2, -3, -4], [0, 1, 2, -9]], [1, 0], [2, 3], 2, 0, 0, sc(41)))
         out.append({"kind": "util", "fn": "meiosis", "module": "core", "geno": g4, "xo": canon.enc(xo6),
                     "sel": [3, 0, 0], "rng": sc(30)})
         out.append({"kind": "util", "fn": "dh", "module": "util", "geno": g4, "xo": canon.enc(xo6),
@@ -472,6 +499,7 @@ class C01(Prop):
         modname, cls = mods[case["kind"]]
         g, xo = _build_pgmat(case)
         snap = _snapshot(g)
+        meta_in = _meta_json(g)
         rng, den = _make_rng(case["rng"], [_fr(v) for v in case["xo"]])
         prot = cls(progeny_counter=case["pc"], family_counter=case["fc"], rng=rng)
         npar = PROTOS[case["kind"]][1]
@@ -498,6 +526,7 @@ class C01(Prop):
             "draws": _draws_json(rng.log, den), "dden": den,
             "shapes": [list(m.shape) for m in rng.log], "bad_calls": bad_calls,
             "parents_changed": untouched, "meta_lost": lost,
+            "meta_in": meta_in, "meta": _meta_json(out),
         }
 
     def _run_util(self, case, mods):
@@ -538,7 +567,7 @@ class C01(Prop):
             # the draws the code would have requested are unknown: let the model fail first on the
             # same check (every rejection modelled here happens before / independently of the draws)
             return [{"op": "c01.mate", **a, "draws": self._dummy_draws(case), "dden": 1}]
-        return [{"op": "c01.mate", **a, "draws": obs["draws"], "dden": obs["dden"]},
+        return [{"op": "c01.mate", **a, "draws": obs["draws"], "dden": obs["dden"], "meta": obs["meta_in"]},
                 {"op": "c01.spec_mate", **a,
                  "out": {k: obs[k] for k in ("mat", "taxa", "taxa_grp", "pc", "fc")}}]
 
@@ -576,7 +605,7 @@ class C01(Prop):
             return {"corr": corr, "spec": True, "nontrivial": False,
                     "detail": f"rejected input: impl={obs['error']} ({obs['text']}) model={m.get('error', 'accepted')}"}
         s = answers[1]["ok"]
-        keys = ("mat", "taxa", "taxa_grp", "pc", "fc", "grp_name", "grp_stix", "grp_spix", "grp_len")
+        keys = ("mat", "taxa", "taxa_grp", "pc", "fc", "grp_name", "grp_stix", "grp_spix", "grp_len", "meta")
         diff = [k for k in keys if m.get(k) != obs[k]] if "error" not in m else ["model rejected: " + m["error"]]
         corr = not diff and not obs["bad_calls"]
         lost = list(obs["meta_lost"])
@@ -602,7 +631,8 @@ class C01(Prop):
         den = obs["dden"]
         xover = any(Fraction(v, den) < xo[j] for m in obs["draws"] for r in m for j, v in enumerate(r))
         g = case["geno"]
-        het = any(len(set(r)) > 1 or g[0][r[0]] != g[1][r[0]] for r in case["xconfig"])
+        nt = len(g[0])
+        het = any(len({v % nt for v in r}) > 1 or g[0][r[0]] != g[1][r[0]] for r in case["xconfig"])
         return xover and het
 
     def _judge_util(self, case, obs, m):
@@ -671,9 +701,11 @@ class C01(Prop):
                 c["geno"] = [[r[:j] + r[j + 1:] for r in ph] for ph in case["geno"]]
                 yield c
         ntaxa = len(case["geno"][0])
+        if any(v < 0 for r in xc for v in r) and not case.get("expect_error"):
+            yield dict(case, xconfig=[[v % ntaxa for v in r] for r in xc])     # address parents from the front
         used = {v for r in xc for v in r}
         for t in range(ntaxa):                             # drop an unused parent
-            if t not in used and ntaxa > 1:
+            if t not in used and ntaxa > 1 and all(v >= 0 for v in used):
                 c = dict(case)
                 c["geno"] = [ph[:t] + ph[t + 1:] for ph in case["geno"]]
                 c["xconfig"] = [[v - (v > t) for v in r] for r in xc]
@@ -792,6 +824,31 @@ class C01(Prop):
                 return out
             return f
 
+        def blockwise(blk):
+            def f(geno, sel, xoprob, rng):
+                gshape = (len(sel), len(xoprob))
+                gamete = numpy.empty(gshape, dtype=geno.dtype)
+                for j, s_ in enumerate(sel):
+                    i = j % blk                       # position of the gamete within its block ...
+                    if i == 0:
+                        rnd = rng.uniform(0, 1, (min(blk, gshape[0] - j), gshape[1]))
+                    xoix = numpy.flatnonzero(rnd[i] < xoprob)
+                    phase, stix = 0, 0
+                    for spix in xoix:
+                        gamete[i, stix:spix] = geno[phase, s_, stix:spix]      # ... also used as the output row
+                        stix = spix
+                        phase = 1 - phase
+                    gamete[i, stix:] = geno[phase, s_, stix:]
+                return gamete
+            return f
+
+        def blockwise_ctx():
+            @contextlib.contextmanager
+            def ctx():
+                with setattr_ctx(U, "mat_meiosis", blockwise(4096)), setattr_ctx(Cc, "dense_meiosis", blockwise(4096)):
+                    yield
+            return ctx
+
         REP = "numpy.repeat(nprogeny, nmating)"
         ms = [
             # -- mechanism 1: segment-copy loop (both copies: mat_meiosis and dense_meiosis)
@@ -803,6 +860,7 @@ class C01(Prop):
             ("meiosis_tail_of_first_selected", both_meiosis("gamete[i,stix:] = geno[phase,s,stix:]",
                                                             "gamete[i,stix:] = geno[phase,sel[0],stix:]")),
             ("meiosis_writes_parent", lambda: setattr_ctx(U, "mat_meiosis", writes_parent(U.mat_meiosis))),
+            ("meiosis_blockwise_draws_local_row_index", blockwise_ctx()),
             # -- mechanism 2: gamete stacking
             ("mat_mate_stack_swapped", everywhere("mat_mate", mutate_src(
                 U.mat_mate, "numpy.stack([fgamete, mgamete])", "numpy.stack([mgamete, fgamete])"))),
